@@ -41,7 +41,7 @@ NoDup == \A i, j \in 1 .. Len(reg) : reg[i] = reg[j] => i = j
 NoClash == Range(reg) \cap Range(Taken) = {}
 
 (* two units over all registered dimensions and the three builtin ones *)
-UserPow == << <<1, -2, 3>>, <<-1, 2, -3>> >>
+UserPow == << <<1, -2, 3, -1>>, <<-1, 2, -3, 2>> >>
 BuiltinPow == << <<-1, 2, 1>>, <<3, -1, -2>> >>
 Exps(v) == [s \in Range(reg) \cup Range(Builtin) |->
               IF s \in Range(reg) THEN UserPow[v][CHOOSE i \in 1 .. Len(reg) : reg[i] = s]
